@@ -95,6 +95,7 @@ type trans struct {
 	env      map[string]gty    // variables in scope
 	ren      map[string]string // Go name -> Lean name
 	sigs     map[string]sig    // callable functions (translated ones and the hard-wired table)
+	tpConvs  map[string]bool   // conversions to a type parameter used by the function (binders of its parameters)
 	fields   map[string]gty    // receiver fields (jsf64ctx)
 	recv     string
 	// stream functions (translate_prog.go)
@@ -433,6 +434,16 @@ func (t *trans) call(c *ast.CallExpr, want gty) (string, gty) {
 		if _, ok := t.listFields[exprText(t.p.fset, c.Args[0])]; ok {
 			return "(Go.glen " + cbName(exprText(t.p.fset, c.Args[0])) + ")", "i64"
 		}
+	}
+	if typeParams[fn] && len(c.Args) == 1 && t.tpConvs != nil {
+		// I(x): a conversion to a type parameter
+		a, from := t.expr(c.Args[0], "")
+		if from != "i64" && from != "u64" {
+			panic("translate: conversion of " + string(from) + " to a type parameter")
+		}
+		name := "conv_" + string(from) + "_" + fn
+		t.tpConvs[fmt.Sprintf("(%s : %s → %s)", name, leanTy(from), fn)] = true
+		return "(" + name + " " + a + ")", gty("tp:" + fn)
 	}
 	switch fn {
 	case "bits.Len64":
@@ -1109,7 +1120,7 @@ func emitTranslated(p *pkgInfo) (out string, err error) {
 	b.WriteString("\n")
 	b.WriteString(t.exprFn("findBugSeedStep", "seed of the next test case in findBug", seedRhs, et, "u64"))
 	b.WriteString("\n/-! ### functions on the bit stream, in continuation-passing style over `Prog` -/\n\n")
-	for _, fn := range []string{"genFloat01", "genGeom", "genUintNNoReject", "genUintNUnbiased", "genUintNBiased", "genUintN", "genUintRange", "flipBiasedCoin", "genIntRange", "genIndex", "find", "filteredGen.maybeValue", "filteredGen.value", "customGen.value", "mappedGen.value", "sampledGen.value", "oneOfGen.value", "Generator.value"} {
+	for _, fn := range []string{"genFloat01", "genGeom", "genUintNNoReject", "genUintNUnbiased", "genUintNBiased", "genUintN", "genUintRange", "flipBiasedCoin", "genIntRange", "genIndex", "find", "filteredGen.maybeValue", "filteredGen.value", "customGen.value", "mappedGen.value", "sampledGen.value", "oneOfGen.value", "Generator.value", "integerGen.value"} {
 		b.WriteString(t.progFunction(fn, true))
 		b.WriteString("\n")
 	}
